@@ -299,33 +299,50 @@ theorem params_loop (q : Nat) : ∀ (rest acc : NList) (k j : Nat), (∀ x ∈ r
     have hty2 : (s.get (k + 2)).type = t.type := seg_type hseg.2.1
     have ih := params_loop q rest (acc ++ [some (.ident t)]) (k + 2) j (fun y hy => hall y (List.mem_cons_of_mem _ hy)) hseg.2.2 (by omega)
     refine ⟨Ev.step 0 1 (fun F _ ha f hf => ?_) ih.1, ?_⟩
-    · rw [parseFunctionParametersLoop_step (by simpa using hcomma)
-        (by simp only [advance_stAt, stAt_cur, hty2]; rcases ht with h | h <;> rw [h] <;> decide),
+    · rw [parseFunctionParametersLoop_step (by simpa using hcomma),
         advance_stAt, advance_stAt, stAt_cur, htk, ha f hf, List.append_assoc]
       rfl
     · rw [ih.2, lastDotDot, hty2]; rfl
+
+/-- the parameter lists `parseFunctionParameters` accepts (`okParamList`): identifiers, the last one may be `..` -/
+theorem paramsOK_elim {variadic : Bool} {params : NList} (h : paramsOK variadic params = true) :
+    (∀ x ∈ params, isParam x = true) ∧ ∃ t, okParamList params = some (t, true) ∧ t.isSome = variadic := by
+  simp only [paramsOK, lambdaParamsOK, Bool.and_eq_true, List.all_eq_true] at h
+  refine ⟨h.1, ?_⟩
+  have h2 := h.2
+  cases hk : okParamList params with
+  | none => rw [hk] at h2; cases h2
+  | some r =>
+    obtain ⟨t, b⟩ := r
+    rw [hk] at h2
+    cases b with
+    | false => cases h2
+    | true => exact ⟨t, rfl, by simpa using h2⟩
 
 /-- `parseFunctionParameters` from the `(` at `k` to the `)` at `j` -/
 theorem params_parse (q : Nat) (params : NList) (variadic : Bool) (k j : Nat) (hok : paramsOK variadic params = true)
     (hseg : Seg s (k + 1) (listToks c ap q false params ++ [rparen])) (hj : j = k + 1 + (listToks c ap q false params).length) :
     Ev (fun f => parseFunctionParameters s f (stAt s k) = .ok ((params, variadic), stAt s j)) := by
-  simp only [paramsOK, Bool.and_eq_true, List.all_eq_true, beq_iff_eq] at hok
+  obtain ⟨hall, tk, hk, hv⟩ := paramsOK_elim hok
   cases params with
   | nil =>
-    simp only [listToks, List.nil_append, Seg_cons, Seg_nil, and_true, List.length_nil, Nat.add_zero, lastDotDot] at hseg hok hj
+    simp only [listToks, List.nil_append, Seg_cons, Seg_nil, and_true, List.length_nil, Nat.add_zero] at hseg hj
     subst hj
     have hty : (s.get (k + 1)).type = .RPAREN := seg_type hseg
+    simp only [okParamList, Option.some.injEq, Prod.mk.injEq, and_true] at hk
+    subst hk
     refine ⟨0, fun f _ => ?_⟩
     show parseFunctionParameters s f (stAt s k) = _
-    rw [parseFunctionParameters_empty (by simp only [stAt_peek]; exact hty), advance_stAt, hok.2]
+    rw [parseFunctionParameters_empty (by simp only [stAt_peek]; exact hty), advance_stAt, ← hv]
+    rfl
   | cons x rest =>
-    obtain ⟨t, rfl, ht⟩ := isParam_elim (hok.1 _ (List.mem_cons_self ..))
+    obtain ⟨t, rfl, ht⟩ := isParam_elim (hall _ (List.mem_cons_self ..))
     simp only [listToks, Bool.false_eq_true, if_false, exprToksO, exprToks, Bool.false_and, List.nil_append, List.cons_append,
       List.append_assoc, Seg_cons, List.length_cons, List.length_append, List.length_nil] at hseg hj
     have htk : (s.get (k + 1)).tk = t := seg_tk hseg.1
     have hty : (s.get (k + 1)).type = t.type := seg_type hseg.1
     obtain ⟨j', rfl⟩ : ∃ j', j = j' + 1 := ⟨j - 1, by omega⟩
-    have ih := params_loop (s := s) (c := c) (ap := ap) q rest [some (.ident t)] (k + 1) j' (fun y hy => hok.1 y (List.mem_cons_of_mem _ hy)) hseg.2
+    have ih := params_loop (s := s) (c := c) (ap := ap) q rest [some (.ident t)] (k + 1) j' (fun y hy => hall y (List.mem_cons_of_mem _ hy)) hseg.2
       (by omega)
     have hclose : (s.get (j' + 1)).type = .RPAREN := by
       have := hseg.2; rw [Seg_append, Seg_cons] at this
@@ -333,18 +350,9 @@ theorem params_parse (q : Nat) (params : NList) (variadic : Bool) (k j : Nat) (h
       rwa [show k + 1 + 1 + (listToks c ap q true rest).length = j' + 1 by omega] at h2
     refine Ev.step 0 0 (fun F _ ha f hf => ?_) ih.1
     show parseFunctionParameters s f (stAt s k) = _
-    rw [parseFunctionParameters_ok (st1 := stAt s j') (ids := [some (.ident t)] ++ rest)
+    rw [parseFunctionParameters_ok (st1 := stAt s j') (ids := [some (.ident t)] ++ rest) (t := tk)
       (by simp only [stAt_peek, hty]; rcases ht with h | h <;> rw [h] <;> decide)
-      (by simp only [stAt_peek, hty]; rcases ht with h | h <;> rw [h] <;> decide)
-      (by simp only [stAt_peek, htk, advance_stAt]; exact ha f hf) (by simp only [stAt_peek]; exact hclose), advance_stAt, stAt_cur]
-    have hv : decide ((s.get j').type = .DOTDOT) = variadic := by
-      have := ih.2
-      rw [hty] at this
-      rw [hok.2, lastDotDot]
-      simp only [isDotDot]
-      rw [← this]
-      rfl
-    rw [hv]
+      (by simp only [stAt_peek, htk, advance_stAt]; exact ha f hf) (by simp only [stAt_peek]; exact hclose) hk, advance_stAt, hv]
     rfl
 
 theorem stop_lbrace {q j : Nat} (h : key (s.get j) = key lbrace) (hq : 1 ≤ q) : Stop q (s.get j) := by
@@ -410,10 +418,18 @@ theorem gp_func {t : Tk} {name : Option Tk} {params l : NList} {variadic : Bool}
         (by simp only [advance_stAt]; exact (ha f hf').1) (by simp only [stAt_peek]; exact hlb)
         (by simp only [advance_stAt]; exact (ha f hf').2) rfl, stAt_cur, stAt_peek, seg_tk hseg.1, seg_tk hseg.2.1]
 
-theorem paramsOK_of_all {params : NList} (h : params.all isParam = true) : paramsOK (lastDotDot false params) params = true := by
-  simp [paramsOK, h]
+theorem paramsOK_of_macro {params : NList} (h : macroParamsOK params = true) : ∃ v, paramsOK v params = true := by
+  simp only [macroParamsOK, Bool.and_eq_true] at h
+  cases hk : okParamList params with
+  | none => rw [hk] at h; exact absurd h.2 (by simp)
+  | some r =>
+    obtain ⟨t, b⟩ := r
+    rw [hk] at h
+    cases b with
+    | false => exact absurd h.2 (by simp)
+    | true => exact ⟨t.isSome, by simp [paramsOK, lambdaParamsOK, h.1, hk]⟩
 
-theorem gp_macro {t : Tk} {params l : NList} (ht : t.type = .MACRO) (hpar : params.all isParam = true)
+theorem gp_macro {t : Tk} {params l : NList} (ht : t.type = .MACRO) (hpar : macroParamsOK params = true)
     (hfl : fragS c ap true true l = true) (hpl : SPL s c ap l) : GP s c ap (.macroLit t params (some l)) := by
   intro ws q P i j res hc hseg hj hstop
   simp only [exprToks, blockToks, List.cons_append, List.append_assoc, List.length_cons, List.length_append, List.length_nil] at hseg hj
@@ -425,7 +441,8 @@ theorem gp_macro {t : Tk} {params l : NList} (ht : t.type = .MACRO) (hpar : para
   rw [show listToks c ap q false params ++ rparen :: lbrace :: (stmtsToks c ap true true l ++ [rbrace])
       = (listToks c ap q false params ++ [rparen]) ++ (lbrace :: stmtsToks c ap true true l ++ [rbrace]) by simp, Seg_append] at hseg2
   simp only [List.length_append, List.length_cons, List.length_nil] at hseg2
-  have hp1 := params_parse q params _ (i + 1) kr (paramsOK_of_all hpar) hseg2.1 (by omega)
+  obtain ⟨vv, hvv⟩ := paramsOK_of_macro hpar
+  have hp1 := params_parse q params vv (i + 1) kr hvv hseg2.1 (by omega)
   have hsegb : Seg s (kr + 1) (lbrace :: stmtsToks c ap true true l ++ [rbrace]) := by
     have := hseg2.2; rwa [show i + 1 + 1 + ((listToks c ap q false params).length + (0 + 1)) = kr + 1 by omega] at this
   have hlb : (s.get (kr + 1)).type = .LBRACE := by
